@@ -21,10 +21,10 @@ the field's chain accepts the value read"), supplied per case by the harness fro
 -/
 import Octave.Lemmas.Number
 import Octave.Spec.Calendar
-import Octave.Props.C12
+import Octave.Lemmas.GenFacts
 set_option linter.unusedSimpArgs false
 namespace Octave.C13
-open Octave Octave.Gbnf Octave.C12
+open Octave Octave.Gbnf Octave.GenFacts
 
 /-! ## characterising facts -/
 
